@@ -4,7 +4,9 @@
 //! closures passed to a function that calls them under a lock are followed too), and writes
 //!   * the nesting edges (held lock, acquired lock) with the call chains that produce them,
 //!   * every `.await` (or `select!`) reached while a guard is alive,
-//!   * every place it could not analyse (a lock acquisition inside a macro it cannot parse)
+//!   * every place it could not analyse (a lock acquisition inside a macro it cannot parse),
+//!   * the suspension points of the actor / handler / push-loop functions in source order (`x` = `x(..).await`,
+//!     `select!(a,b)` with the futures it races, `a[if]` = that branch has a precondition, `async{ .. }`)
 //! as a Coq file (`LockEdges.v`) and as JSON.  The Coq development proves that edges which respect a
 //! rank order exclude deadlock (Proofs/LocksP.v); Gen/LockCheck.v checks the generated edges.
 //!
